@@ -310,6 +310,12 @@ func VerifH_C03_Op() {
 			return // function / null results are not compared by value
 		}
 		verifAssert(reflect.DeepEqual(got.val, want.val), "c03-value:"+op)
+		// IEEE-754 results carry the sign of zero (the exact operators only; % goes through fmod)
+		if wf, ok := want.val.(float64); ok && wf == 0 && (op == "neg" || op == "+" || op == "-" || op == "*" || op == "/") {
+			if gf, ok := got.val.(float64); ok {
+				verifAssert(math.Signbit(gf) == math.Signbit(wf), "c03-sign-of-zero:"+op)
+			}
+		}
 	}
 }
 
